@@ -118,7 +118,14 @@ func (k *Kubelet) register(kn *KNode) {
 		spec = o.(*v1.NodeClaim).Spec
 	}
 	node.Spec.Taints = append(node.Spec.Taints, spec.Taints...)
-	node.Spec.Taints = append(node.Spec.Taints, spec.StartupTaints...)
+	// the kubelet registers the taints it was started with; a flag like key=true:NoSchedule for a declared key:NoSchedule
+	// is the same taint by key and effect
+	for _, t := range spec.StartupTaints {
+		if t.Value == "" && k.s.Ch.Pick("kubelet.taintvalue", 3) == 2 {
+			t.Value = "true"
+		}
+		node.Spec.Taints = append(node.Spec.Taints, t)
+	}
 	if !kn.NoTaint {
 		node.Spec.Taints = append(node.Spec.Taints, v1.UnregisteredNoExecuteTaint)
 	} else {
